@@ -5,11 +5,12 @@
    How it is decided here: each variant has its own executable model, tied to its own
    implementation by correspondence (machines 1-10), both models are parametric in the SAME
    position / fingerprint / rank functions, and the two implementations are run in lock-step on
-   common histories with their answers compared (pair suites). The refinement theorems that
-   would derive model_mem = model_redis outright are PARTIAL: proved below are the shared
-   pieces the agreement rests on; the store-level refinements are not yet proved. *)
-From GX.Model Require Import Base HLL Cuckoo Heap TopK Redis RedisCMS RedisHLL RedisCuckoo RedisTopK.
-From GX.Proofs Require Import ListLemmas HLLProofs.
+   common histories with their answers compared (pair suites). Proved outright for
+   Count-Min: the Redis model REFINES the memory model (constructor, Update, Count, every history
+   below 2^53). For the other structures the refinement theorems are PARTIAL: proved below are
+   the shared pieces the agreement rests on. *)
+From GX.Model Require Import Base CMS HLL Cuckoo Heap TopK Redis RedisCMS RedisHLL RedisCuckoo RedisTopK.
+From GX.Proofs Require Import ListLemmas HLLProofs CMSProofs RedisCMSRefine RedisHLLRefine.
 From Coq Require Import Lia ZifyN ZifyBool.
 
 (* HyperLogLog: the Redis update rule (keep the larger of the stored value and uint8(count)) and
@@ -43,7 +44,66 @@ Proof.
   destruct (N.leb_spec (N.size x) 53); [reflexivity|lia].
 Qed.
 
+(* Count-Min: the Redis variant REFINES the in-memory one. If the row lists of the store hold the
+   decimal strings of the matrix rows (refines), then Update leads to the store representing the
+   updated matrix and Count returns the in-memory estimate, for counters below 2^53; the
+   constructor establishes the relation. So on every common history below 2^53 the two variants
+   answer identically. *)
+Section CMSRefinement.
+Variable cpos : N -> N -> bytes -> list N.
+Variable rows cols : N.
+Hypothesis cpos_len : forall x, length (cpos rows cols x) = N.to_nat rows.
+Hypothesis cpos_lt : forall x p, In p (cpos rows cols x) -> p < cols.
+Hypothesis cols_pos : 0 < cols.
+
+Theorem C08_cms_new_refines : forall s key meta h s' m,
+  rcms_new s rows cols key meta = (Ok h, s') -> cms_new rows cols = Ok m -> refines rows cols s' h m.
+Proof. exact (new_refines cpos rows cols cpos_len cpos_lt cols_pos). Qed.
+
+Theorem C08_cms_update_refines : forall s h m x count,
+  refines rows cols s h m -> count < B53 -> cells_below rows cols m (B53 - count) ->
+  exists s', rcms_update cpos s h x count =
+               (Ok (mkRcms (rc_rows h) (rc_cols h) (wrap64 (rc_allsum h + count)) (rc_key h) (rc_meta h)), s') /\
+             refines rows cols s'
+               (mkRcms (rc_rows h) (rc_cols h) (wrap64 (rc_allsum h + count)) (rc_key h) (rc_meta h))
+               (cms_update cpos m x count).
+Proof. exact (update_refines cpos rows cols cpos_len cpos_lt cols_pos). Qed.
+
+Theorem C08_cms_count_refines : forall s h m x,
+  refines rows cols s h m -> 0 < rows -> cells_below rows cols m B53 ->
+  rcms_count cpos s h x = Ok (cms_count cpos m x).
+Proof. exact (count_refines cpos rows cols cpos_len cpos_lt cols_pos). Qed.
+
+Theorem C08_cms_same_answers_on_every_history : forall hist s h m done,
+  refines rows cols s h m -> repr cpos rows cols m done -> total (done ++ hist) < B53 ->
+  exists s' h', rrun cpos s h hist = (Ok h', s') /\ refines rows cols s' h' (run_hist cpos m hist) /\
+                repr cpos rows cols (run_hist cpos m hist) (done ++ hist).
+Proof. exact (history_refines cpos rows cols cpos_len cpos_lt cols_pos). Qed.
+End CMSRefinement.
+
+(* HyperLogLog: the Redis variant refines the in-memory one on its registers (update, merge) and
+   both estimators start from the same harmonic sum *)
+Theorem C08_hll_update_refines : forall hic s h mh x,
+  hrefines s h mh -> fst (hic (h_p mh) x) < 256 ->
+  match hll_update hic mh x with
+  | Ok mh' => exists s', rhll_update hic s h x = (Ok tt, s') /\ hrefines s' h mh'
+  | Panic _ => rhll_update hic s h x = (Err E_GENERIC, s)
+  | Err _ => False
+  end.
+Proof. exact hll_update_refines. Qed.
+Theorem C08_hll_merge_refines : forall s a b ma mb,
+  hrefines s a ma -> hrefines s b mb -> rh_key a <> rh_key b -> h_m ma = h_m mb ->
+  exists s' m, hll_merge ma mb = Ok m /\ rhll_merge s a b = (Ok tt, s') /\ hrefines s' a m /\ hrefines s' b mb.
+Proof. exact hll_merge_refines. Qed.
+Theorem C08_hll_same_harmonic_sum : forall s h mh, hrefines s h mh -> rhll_hmean_num s h = Some (hll_hsum_num mh).
+Proof. exact hll_hsum_refines. Qed.
+
 Print Assumptions C08_hll_same_register_rule.
 Print Assumptions C08_cuckoo_same_positions.
 Print Assumptions C08_topk_same_order.
 Print Assumptions C08_round53_exact.
+Print Assumptions C08_cms_update_refines.
+Print Assumptions C08_cms_count_refines.
+Print Assumptions C08_cms_same_answers_on_every_history.
+Print Assumptions C08_hll_update_refines.
+Print Assumptions C08_hll_same_harmonic_sum.
